@@ -287,6 +287,7 @@ func C10Configs(thorough bool) []*world.Config {
 	cs = append(cs, im)
 	cs = append(cs, world.UintCfg(2, ulist(1, 2, 4), 1, B, "big"))
 	cs = append(cs, ChainSeeded(B, 2))
+	cs = append(cs, Seeded16(M, 2))
 	if thorough {
 		cs = append(cs, world.UintCfg(2, urange(0, 8), 1, B, "none"))
 		cs = append(cs, world.UintCfg(3, ulist(1, 2, 3, 4, 5, 6, 7, 8, 9, 12, 18), 1, B, "none"))
